@@ -9,7 +9,24 @@ Request lines (harness/src/ops_sieve.rs, lean/Ymq/Drv/Sieve.lean):
   sv_cof <P> <x> <facs> <maxlarge> <double>        fbase::cofactor
   sv_fb <n> <size>                                 FBase::new (idx_by_log)
 """
+# SIZE AUDIT (quick tier), measured on cases('quick', Random(1))
+#   op        operand                      quick max          thorough max     code supports                          boundary classes reached in quick
+#   sv        factor-base primes           ~1.4 * 10^6        same (the prime  primes < 2^24 (FB.WF; one SieveTable   bit lengths 13, 14, 15, 16, 19 crossed by the size list (deterministic);
+#                                          (21 bits)          list of the      per bit length 16..18, one             BEFORE: bit lengths 22, 23, 24 (tables 3..5 of ltables) NEVER reached in
+#                                                             generator ended  SieveTableLarge per bit length 19..24) either tier -> ADDED
+#             number of primes             70000              at 1.5 * 10^6)   16-bit prime index in the large tables one wrap of the 16-bit index (65536..70000); BEFORE: two or more wraps
+#                                                                              (stride 2^16 walk), pskip classes at   (>= 131072 primes) never -> ADDED (145000 primes); pskip classes: all six
+#                                                                              2000/5000/10000/20000/50000 primes     reached, boundary 1999/2000 exact, others one side only (4999, 9999 ADDED)
+#             nblocks / start offset       12 (20), 40 bits   20               nblocks <= 2^17, |offset| <= 2^62      unchanged (callers use a few dozen blocks)
+#   svt/svl   bucket tables                5 blocks           same             -                                      fill cap-1, cap, cap+1 (deterministic choice list)
+#   sv_cof    |x|                          250 bits           250              I256: |x| < 2^255                      BEFORE: widths random, 64/128/192-bit boundaries 0..3 times, 251..255 never
+#             maxlarge                     24 bits            24               maxlarge < 2^32 (maxlarge^2 in u64)    BEFORE: never above 2^24, so cofactors of 49..64 bits that are ACCEPTED
+#             cofactor                     48 bits accepted,                   u64 (try_into), <= maxlarge^2          (double large primes next to 2^64, single ones next to 2^32) never -> ADDED
+#                                          65..140 refused
+#   sv_fb     n                            300 bits           300              Int (1024 bits); sieves: n*k < 2^508   widths rng.choice({20,64,128,300}) (not exact) -> ADDED exact 63..512 bits
+# Added: boundary_cases (both tiers, first).
 import math
+import random
 from vlib.pipeline import Case
 from vlib import gen
 
@@ -716,7 +733,129 @@ def cof_case(rng):
                 k=not (double and c > maxprime * maxprime), tag="cof")
 
 
+def _fork(rng, label):
+    """own stream for the boundary family: depends on the run's seed, leaves the stream of the older families untouched"""
+    return random.Random(f"{label}:{rng.getstate()[1][:4]}")
+
+
+_PRIMES24 = []
+
+
+def primes24():
+    """every prime below 2^24 (the bound of the factor-base primes), computed once when the boundary family is generated"""
+    if not _PRIMES24:
+        lim = 1 << 24
+        sv = bytearray([1]) * lim
+        sv[0] = sv[1] = 0
+        for i in range(2, 4097):
+            if sv[i]:
+                sv[i * i::i] = bytearray(len(sv[i * i::i]))
+        _PRIMES24.extend(i for i in range(lim) if sv[i])
+    return _PRIMES24
+
+
+def exact_bits_value(rng, c, P, bits):
+    """|x| = c * (listed primes) of exactly `bits` bits (P[0] = 2 adjusts the length): -> (x, indices of the listed primes)"""
+    x, idx = c, set()
+    while x.bit_length() < bits - 24:
+        i = rng.randrange(1, len(P))
+        x *= P[i]
+        idx.add(i)
+    if x.bit_length() < bits:
+        x <<= bits - x.bit_length()
+        idx.add(0)
+    assert x.bit_length() == bits, (bits, x.bit_length())
+    return x, sorted(idx)
+
+
+def boundary_cof_cases(rng):
+    P = ALL_PRIMES[:200]
+    maxprime = P[-1]
+    big = [(1 << 31) - 1, (1 << 31) + 11, (1 << 32) - 1]
+    widths = [63, 64, 65, 127, 128, 129, 191, 192, 193, 250, 254, 255]
+    j = 0
+
+    def line(c, maxlarge, double, bits=None):
+        nonlocal j
+        bits = bits or widths[j % len(widths)]
+        j += 1
+        if bits < c.bit_length() + 1:
+            bits = c.bit_length() + 8
+        x, idx = exact_bits_value(rng, c, P, bits)
+        if j % 2:
+            x = -x
+        facs = list(idx) + ([rng.randrange(len(P))] if j % 3 == 0 else [])
+        rng.shuffle(facs)
+        return Case(f"sv_cof {lst(P)} {x} {lst(facs)} {maxlarge} {'true' if double else 'false'}",
+                    k=not (double and c > maxprime * maxprime), tag="cof")
+    for maxlarge in big:
+        below, above = gen.prev_prime(maxlarge + 1), gen.next_prime(maxlarge)
+        q = gen.prev_prime(below)
+        yield line(1, maxlarge, False)
+        yield line(below, maxlarge, False)                  # largest single large prime that is accepted
+        yield line(above, maxlarge, False)                  # first one that is refused
+        yield line(below * q, maxlarge, True)               # double large prime next to maxlarge^2 (64 bits when maxlarge ~ 2^32)
+        yield line(q * gen.prev_prime(1 << 31), maxlarge, True)
+        yield line(below * above, maxlarge, True)           # one of the two above maxlarge
+        yield line(above * gen.next_prime(above), maxlarge, True)       # above maxlarge^2 (may exceed 64 bits)
+        yield line(gen.prev_prime(1 << 64), maxlarge, False)            # largest 64-bit value: too large
+        yield line(gen.next_prime(1 << 64), maxlarge, True)             # does not fit u64
+    # every width of |x| with an ordinary large prime, both signs
+    for bits in widths:
+        for sign in (1, -1):
+            maxlarge = maxprime * 300
+            c = gen.next_prime(rng.randrange(maxprime, maxlarge - 1000))
+            x, idx = exact_bits_value(rng, c, P, bits)
+            yield Case(f"sv_cof {lst(P)} {sign * x} {lst(idx)} {maxlarge} false", tag="cof")
+
+
+def boundary_cases(rng, tier):
+    """deterministic size classes (both tiers, yielded first)"""
+    yield from boundary_cof_cases(rng)
+    # FBase::new: n of exactly these widths
+    for bits in (63, 64, 65, 127, 128, 129, 255, 256, 257, 383, 448, 500, 512):
+        n = rng.getrandbits(bits) | (1 << (bits - 1)) | 1
+        yield Case(f"sv_fb {n} {40 if bits % 2 else 700}", k=False, tag="fb")
+    # factor bases whose largest primes have 22, 23, 24 bits (very-large-prime tables 3, 4, 5): ~3000 small primes, then
+    # 1000 primes of every bit length up to 24; model compared
+    PR = primes24()
+    P = [p for p in PR[:6000] if rng.random() < 0.5]
+    top = P[-1]
+    for l in range(top.bit_length(), 25):
+        cls = [p for p in PR if p.bit_length() == l and p > top]
+        P += rng.sample(cls, min(len(cls), 1000))
+    P = sorted(set(P))
+    assert P[-1].bit_length() == 24
+    for shape in ("plain", "partial", "rehash", "recycle", "overflow", "loverflow"):
+        nb = 3 if shape != "rehash" else 2
+        yield Case(scenario(rng, P, shape, nb, "n60", True), k=False, tag=f"K sv/{len(P)}/{shape}", timeout=300)
+    for lg in (24, 23, 22):
+        # more than 1024 hits of the primes of ONE top size class in one 16384-wide bucket
+        nb = 3
+        R1, R2 = make_roots(rng, P, single=0.03)
+        base = 16384 * rng.randrange(0, nb * 2)
+        idx = [i for i, p in enumerate(P) if bitlen(p) == lg]
+        rng.shuffle(idx)
+        for i in idx[:rng.randrange(530, 640)]:
+            a, b = rng.sample(range(16384), 2)
+            R1[i], R2[i] = (base + a) % P[i], (base + b) % P[i]
+            if R1[i] == R2[i]:
+                R2[i] = (R1[i] + 1) % P[i]
+        line = sv_line("n60", None, P, [("new", -(nb * BLOCK) // 2, nb, R1, R2), ("run", nb)])
+        yield Case(line, k=False, tag=f"K sv/{len(P)}/loverflow", timeout=300)
+    # more than 2^17 primes up to 2^24: the 16-bit prime index of the large tables wraps twice
+    P = [p for p in PR if rng.random() < 0.135 or p == PR[-1]]
+    assert len(P) > (1 << 17) + 1000
+    for shape in ("plain", "recycle", "loverflow"):
+        yield Case(scenario(rng, P, shape, 2, "n60", True), k=False, tag=f"K sv/{len(P)}/{shape}", timeout=300)
+    # pskip classes from below (1999 / 2000 is in the size list)
+    for size in (4999, 9999):
+        P = make_fb(rng, size, 0.5, 0)
+        yield Case(scenario(rng, P, "plain", 2, "n60", True), k=False, tag=f"K sv/{size}/plain", timeout=300)
+
+
 def cases(tier, rng, extended=False):
+    yield from boundary_cases(_fork(rng, "C13-boundary"), tier)
     quick = tier == "quick"
     scale = 1 if quick else 6
     if extended:
@@ -838,7 +977,10 @@ def extra_coverage():
     return {"sieve_reports": tot}
 
 
-RULE = ("factor bases: {40, 600, 1900, 1999/2000 (pskip boundary), 3600, 5000, 10000, 23000} primes, every prime kept with probability 1/2 "
+RULE = ("first, in both tiers, a deterministic boundary family: factor bases reaching the prime bit lengths 22, 23, 24 (1000 primes of every bit length 15..24 on top of "
+        "~3000 small ones: plain, rehash, recycle, overflow, and more than 1024 hits of 24-bit / 23-bit primes in one bucket) and 145000 primes up to 2^24 (the "
+        "16-bit prime index wraps twice), 4999 / 9999 primes; cofactor with maxlarge next to 2^31 / 2^32, accepted cofactors next to 2^32 and 2^64, |x| of exactly "
+        "63..65, 127..129, 191..193, 250, 254, 255 bits; FBase::new with n of exactly 63..512 bits; then factor bases: {40, 600, 1900, 1999/2000 (pskip boundary), 3600, 5000, 10000, 23000} primes, every prime kept with probability 1/2 "
         "(0.9/1.0 for the dense variants: bucket overflows), so that the prime-size classes 2^13, 2^14, 2^15, 2^16, 2^19 are crossed; "
         "root tables random with r < p, single-root primes (r1 = r2, the OFFSET_NONE marker) with probability 0/3%/20% among p < 32768; "
         "scripts {plain, partial (skip k blocks, then report), recycle (tables of 1 or 2 previous sieves with other roots), rehash "
